@@ -344,8 +344,30 @@ def run_alg(case, rec):
         tr = OwnTracker(stock)
         rec.count("searches_with_a_user_written_tracker")
     b = EvaluationBudget(case["budget"])
+    yielded: list = []
+    gp_step = None
+    if case["alg"] == "gp" and case["seed"] % 3 == 0:
+        # a step that evaluates its offspring itself (an evaluate step / a selection placed after variation), watched by a
+        # delegating step: whatever the step hands over as a member of the generation and has been evaluated is an
+        # individual "evaluated so far" that the tracker has to know
+        from geneticengine.algorithms.gp.operators.combinators import SequenceStep
+        from geneticengine.algorithms.gp.operators.evaluation import EvaluateStep
+        from geneticengine.algorithms.gp.operators.mutation import GenericMutationStep
+        from geneticengine.algorithms.gp.operators.selection import TournamentSelection
+        from geneticengine.algorithms.gp.structure import GeneticStep
+
+        inner_step = SequenceStep(GenericMutationStep(1.0), EvaluateStep()) if case["seed"] % 2 == 0 else SequenceStep(GenericMutationStep(1.0), TournamentSelection(2))
+
+        class Watch(GeneticStep):
+            def iterate(self, problem, evaluator, representation, random, population, target_size, generation):
+                for ind in inner_step.apply(problem, evaluator, representation, random, population, target_size, generation):
+                    yielded.append(ind)
+                    yield ind
+
+        gp_step = Watch()
+        rec.count("gp_runs_whose_step_evaluates_its_offspring_itself")
     alg = {
-        "gp": lambda: GeneticProgramming(prob, b, rep, src, tracker=tr, population_size=case["pop"]),
+        "gp": lambda: GeneticProgramming(prob, b, rep, src, tracker=tr, population_size=case["pop"], step=gp_step),
         "rs": lambda: RandomSearch(prob, b, rep, src, tracker=tr),
         "hc": lambda: HC(prob, b, rep, src, tracker=tr, number_of_mutations=case["pop"]),
         "opo": lambda: OnePlusOne(prob, b, rep, src, tracker=tr),
@@ -378,6 +400,11 @@ def run_alg(case, rec):
     # registrations of individuals that were evaluated earlier (elitism survivors) repeat a known value: the model
     # treats every registration as an observation of that individual's value
     evs = [(e[0], e[1]) for e in r.events if value_of(e[0]) is not None]
+    presented = {id(e[0]) for e in r.events}
+    for ind in yielded:
+        if ind.has_fitness(prob) and id(ind) not in presented:
+            rec.violation("generation-member-evaluated-but-never-presented-to-the-tracker", dict(wit, value=value_of(ind), members_handed_over=len(yielded), presented=len(presented)))
+            break
     best = check_history(evs, None, minimize, multi, rec, wit, value_of)
     if res is None:
         rec.violation("search:returns-none", wit)
